@@ -45,7 +45,7 @@ def run(ctx):
         if res["status"] == "ok":
             stats = recompute_stats(case) if res.get("cr") is not None else {}
             orc.oracle_c04(ctx, case, res, fp.failer(ctx, case), stats)
-    fp.explore(ctx, drv, 150 if ctx.tier == "quick" else 3000, per_case, graph_corr=False, mat_corr=True)
+    fp.explore(ctx, drv, 600 if ctx.tier == "quick" else 3000, per_case, graph_corr=False, mat_corr=True)
     drv.close()
     return common.finish(ctx)
 
